@@ -255,6 +255,42 @@ def run_cross(ctx, rng, n_cases):
                 compare(ctx, "C04:CPCCARotator:%s" % whit, "rotator(power=%d) on %s(k=%d, %s) field Y" % (power, name, k, kw), r2, q2, ("time",), dict(replay, power=power))
 
 
+def run_cross_lagged(ctx, rng, n_cases):
+    """cross-set models whose second field carries OTHER sample labels than the first (a lagged analysis: rows are paired by position), on
+    one sample dimension and on a stacked sample axis (two sample dimensions): every field's transform of its training data comes back with
+    that field's own labels, both fields in one call and the second field alone, also after the first field transformed other data"""
+    import xarray as xr
+    import xeofs as xe
+    for i in range(n_cases):
+        kind = ["two-dims", "one-dim"][i % 2]
+        name, cls, kw = [("MCA", xe.cross.MCA, {}), ("CCA", xe.cross.CCA, {}), ("CPCCA", xe.cross.CPCCA, {"alpha": 0.5})][(i // 2) % 3]
+        p1, p2 = int(rng.integers(3, 5)), int(rng.integers(3, 5))
+
+        def mk(years, p, fname):
+            if kind == "two-dims":
+                return xr.DataArray(rng.standard_normal((len(years), 3, p)), dims=("year", "month", fname),
+                                    coords={"year": years, "month": [1, 2, 3], fname: np.arange(p)})
+            return xr.DataArray(rng.standard_normal((len(years) * 3, p)), dims=("year", fname),
+                                coords={"year": np.arange(len(years) * 3) + years[0] * 10, fname: np.arange(p)})
+        sdims = ("year", "month") if kind == "two-dims" else ("year",)
+        X, Y = mk([2000, 2001, 2002, 2003, 2004], p1, "x"), mk([2001, 2002, 2003, 2004, 2005], p2, "y")
+        other = mk([1990, 1991, 1992, 1993, 1994], p1, "x")
+        replay = dict(kind="cross-lagged", cls=name, structure=kind, X=np.asarray(X.values), Y=np.asarray(Y.values))
+        ctx.case(("cross-lagged", name, kind, p1, p2, i), nontrivial=True, tag="%s/lagged/%s" % (name, kind), sample=dict(cls=name, structure=kind, lag="Y one year later"))
+        try:
+            m = cls(n_modes=2, use_pca=bool(i % 4 < 2), n_pca_modes="all", **kw)
+            m.fit(X, Y, sdims if len(sdims) > 1 else sdims[0])
+            s1, s2 = m.scores()
+            t1, t2 = m.transform(X, Y)
+            compare(ctx, "C04:%s:lagged:X" % name, "%s on differently stamped fields (%s), field X" % (name, kind), s1, t1, sdims, replay)
+            compare(ctx, "C04:%s:lagged:Y" % name, "%s on differently stamped fields (%s), field Y" % (name, kind), s2, t2, sdims, replay)
+            m.transform(X=other)
+            compare(ctx, "C04:%s:lagged:Y-alone" % name, "%s on differently stamped fields (%s), field Y alone after field X transformed other data" % (name, kind),
+                    s2, m.transform(Y=Y), sdims, replay)
+        except Exception as e:
+            ctx.violation("C04:error:%s:lagged:%s" % (name, C.errkind(e)), "%s on differently stamped fields (%s) raised %r" % (name, kind, e), replay)
+
+
 def run_multi(ctx, rng, n_cases):
     import xeofs as xe
     for i in range(n_cases):
@@ -326,6 +362,7 @@ def run(ctx):
     run_rotators(ctx, rng, ctx.n(40, 300))
     run_presentations(ctx, rng, ctx.n(18, 180))
     run_cross(ctx, rng, ctx.n(48, 400))
+    run_cross_lagged(ctx, rng, ctx.n(12, 120))
     run_multi(ctx, rng, ctx.n(6, 60))
     ctx.oblige("oracle:transform(training) == scores on every transform-capable class", "oracle", not ctx.violations)
     if ctx.extra.get("model_ok", True):
